@@ -268,6 +268,40 @@ Theorem header_words_of_builds : forall (nocache ngc : bool),
 Proof. exact ConfigProofs.header_words_builds. Qed.
 Print Assumptions header_words_of_builds.
 
+(* 13. del: on every object made with new the two kinds of build do the same (finalise and free it); on NULL they
+       differ — nothing with the collector (rem finds no entry), ValueError or a crash under CELLO_NGC *)
+Theorem del_paths_agree_on_objects_and_differ_on_null :
+  (forall (c1 c2 : config) (a : nat), del_model c1 (Some a) = del_model c2 (Some a)) /\
+  del_model cfg_default None = DNothing /\
+  del_model (cfg_build false false true) None = DRaise XValueError /\
+  del_model (cfg_build true false true) None = DCrash.
+Proof. exact (conj ConfigProofs.del_agrees_on_objects ConfigProofs.del_null_differs). Qed.
+Print Assumptions del_paths_agree_on_objects_and_differ_on_null.
+
+(* 14. therefore a destructor that forwards a possibly-NULL content to del must test it: with the test as Pointer.c
+       has it (Generated.cfg_box_del_guarded) Box_Del does the same in every configuration for every content,
+       the EMPTY Box included; also element by element for a container of Boxes *)
+Theorem owner_destructors_agree : forall (c1 c2 : config),
+  (forall x : option nat, owner_del cfg_box_del_guarded c1 x = owner_del cfg_box_del_guarded c2 x) /\
+  (forall xs : list (option nat), map (owner_del cfg_box_del_guarded c1) xs = map (owner_del cfg_box_del_guarded c2) xs).
+Proof. exact (fun c1 c2 => conj (ConfigProofs.box_del_agrees c1 c2) (ConfigProofs.owners_del_agree c1 c2)). Qed.
+Print Assumptions owner_destructors_agree.
+
+(* 14b. without the test the builds disagree on the empty owner (seed C18-r4-2) *)
+Theorem unguarded_owner_destructor_configs_differ :
+  owner_del false cfg_default None <> owner_del false (cfg_build false false true) None /\
+  owner_del false cfg_default None <> owner_del false (cfg_build true false true) None.
+Proof. exact ConfigProofs.unguarded_owner_del_differs. Qed.
+Print Assumptions unguarded_owner_destructor_configs_differ.
+
+(* 15. the source: every del / del_raw / del_root call inside a destructor of src/*.c is behind a NULL test of its
+       argument or passes a field the type's constructor always fills; the list is the audited one *)
+Theorem source_destructors_guard_forwarded_del :
+  forallb del_forward_ok cfg_del_forwards = true /\
+  list_eqb str4_eqb cfg_del_forwards audited_del_forwards = true.
+Proof. exact ConfigProofs.del_forwards_audited. Qed.
+Print Assumptions source_destructors_guard_forwarded_del.
+
 (* ================================================================================================
    Hypotheses discharged from what other properties prove (coq/ConfigGlue.v).  The modules of the other
    properties are used qualified. *)
